@@ -1,0 +1,23 @@
+//go:build verif
+
+package common
+
+// Verification hooks (build tag verif) for the /verif C34 harness: the
+// unexported custodian update constants, the single-entry parser and the
+// custodian update validation step, reached directly.  Decisions only.
+
+const (
+	VerifCustodianNodeExtraSize     = custodianNodeExtraSize
+	VerifCustodianNodeActionUpdate  = custodianNodeActionUpdate
+	VerifCustodianNodesMinimumCount = custodianNodesMinimumCount
+	VerifCustodianNodeNewPrice      = custodianNodeNewPrice
+	VerifCustodianNodeUpdatePrice   = custodianNodeUpdatePrice
+)
+
+func VerifC34ParseCustodianNode(extra []byte, genesis bool) (*CustodianNode, error) {
+	return parseCustodianNode(extra, genesis)
+}
+
+func VerifC34ValidateCustodianUpdateNodes(tx *Transaction, store CustodianReader, now uint64) error {
+	return tx.validateCustodianUpdateNodes(store, now)
+}
